@@ -219,6 +219,7 @@ class Crate:
         self.lowered = {}
         if lower and not data.get("_lowered"):
             self.lowered = inline.lower_combinators(data["bodies"], data.get("adts"))
+            self.threaded = inline.thread_known_switches(data["bodies"])
             data["_lowered"] = True
         self.absorbed = {}
         for b in data["bodies"]:
